@@ -207,7 +207,7 @@ def frame_obligations(I, st, c, fi, env, short):
         if key == "$cls":
             continue
         o = z3.FreshConst(RefS, "fo")
-        excl = [o != v.term for v in bykey.get(key, [])]
+        excl = [z3.Or(v.none, o != v.term) if not z3.is_false(v.none) else o != v.term for v in bykey.get(key, [])]
         goal = z3.ForAll([o], z3.Implies(z3.And(z3.Select(st.alloc0, o), *excl), z3.Select(cur, o) == z3.Select(old, o)))
         st.oblige("%s.frame[%s]" % (short, key), goal, meta={"kind": "frame", "clause": "only `modifies` locations of heap field %s change" % key,
                                                            "props": c.props}, assume_after=False)
